@@ -535,6 +535,7 @@ impl Spec {
             has_xywl_partial: self.xywl,
             busy_low: self.busy_low,
             busy_held_after_pof: self.busy_held_after_pof,
+            vendor_uc_sleep: self.name == "epd3in7",
         }
     }
     pub fn row_bytes(&self) -> u32 {
@@ -952,6 +953,7 @@ make: A2in9d::make,
     },
     Spec {
         name: "epd3in7",
+        sleep_sig: SleepSig::Uc,
         w: 280,
         h: 480,
         ram: (35, 480),
